@@ -502,7 +502,7 @@ def run_shard(ctx, spec):
 
 
 def plan(tier, seed):
-    n = 1600 if tier == "quick" else 30000
+    n = 15000 if tier == "quick" else 200000
     return [("valid", n // 16, i) for i in range(16)] + [("defects",), ("scope",)]
 
 
